@@ -15,6 +15,8 @@
    File sink under concurrency: specs/OutputFileSink.tla (two/three workers, seal-up swapping the file): every file is a
    concatenation of whole batch payloads, every chunk in exactly one file; mutant M_BatchWrittenUnderOneLock (chunked write,
    lock released per chunk) rejected with two workers and with a seal-up; replayed on the real file plugin (barrier + sealUp).
+   Connection-oriented sink: specs/OutputStreamSink.tla (whole frames per connection, connection abandoned after a failed or
+   partial write; mutant M_ReconnectAfterFailedWrite rejected), replayed on the real gelf output with a stalled receiver.
 2. The cases are replayed into the REAL output plugins (elasticsearch, kafka, file, splunk, http, loki, gelf), each
    event carrying adversarial values in the routing/label fields; every captured body is parsed back in the sink's
    framing (abstraction function) and compared with the expectation: BodyIs, FramingOK, SplitCovers.
@@ -225,6 +227,36 @@ def file_sink_concurrency(ctx, binary, recs):
                            "overlap actually achieved is measured (evidence: file_sink_concurrency) - with GOMAXPROCS=1 it is usually none")
 
 
+def gelf_stream(ctx, binary, recs):
+    """specs/OutputStreamSink.tla on the real gelf output: a receiver with a small buffer stalls until the write of a payload
+    larger than the socket buffers has timed out part-way, then the same batch is sent again (as the RetriableBatcher does);
+    every connection's byte stream is cut into NUL-terminated frames and judged."""
+    rounds = 2 if ctx.tier == "quick" else 6
+    outp = os.path.join(ctx.scratch, "c19_gelfstream.json")
+    rc, txt = ctx.run_bin(binary, "^TestVerifC19GelfStream$", env={"VERIF_OUT": outp, "VERIF_ROUNDS": rounds, "LOG_LEVEL": "error"},
+                          timeout=900)
+    if rc != 0 or not os.path.exists(outp):
+        raise vlib.Infra("C19 gelf stream harness failed rc=%s:\n%s" % (rc, txt[-3000:]))
+    r = json.load(open(outp))
+    for v in r["violations"] or []:
+        recs.append(dict(v, sink="gelf", stage="gelf_stream", frame_is_valid_json=v["kind"] != "gelf_stream_frame_not_json",
+                         violations_of_this_kind_in_run=r["violation_kinds"].get(v["kind"])))
+    if r["not_delivered"]:
+        recs.append({"kind": "gelf_stream_not_delivered", "sink": "gelf", "stage": "gelf_stream", "rounds": r["not_delivered"]})
+    info = {k: r[k] for k in ("rounds", "payload_bytes", "first_attempt_timed_out", "first_attempt_partial_bytes_seen", "attempts",
+                              "connections", "frames", "n_violations", "violation_kinds")}
+    ctx.extra["gelf_stream"] = info
+    ctx.evaluations += r["frames"]
+    ctx.traces_validated += r["rounds"]
+    if r["first_attempt_timed_out"]:
+        ctx.nontrivial.add(("gelf_stream", "write timed out part-way, batch retried"))
+    vlib.log("C19 gelf stream: rounds=%d payload=%d bytes first attempt timed out=%d (partial bytes seen on its connection=%d) "
+             "attempts=%d connections=%d frames=%d violations=%s" % (r["rounds"], r["payload_bytes"], r["first_attempt_timed_out"],
+             r["first_attempt_partial_bytes_seen"], r["attempts"], r["connections"], r["frames"], r["violation_kinds"]))
+    ctx.assumptions.append("gelf stream framing: the partial write is constructed with a stalled receiver (64 KiB receive buffer) and a "
+                           "payload of 1.5 x tcp_wmem max + 1 MiB; whether the first write really timed out is measured (evidence: gelf_stream)")
+
+
 def run(ctx):
     quick = ctx.tier == "quick"
     preload_findings()
@@ -275,6 +307,16 @@ def run(ctx):
             if m.ok or m.kind != "invariant":
                 raise vlib.Infra("spec mutant M_BatchWrittenUnderOneLock=FALSE (%s) is not rejected" % cfg)
             mutants["M_BatchWrittenUnderOneLock/" + cfg[len("OutputFileSink_mut_"):-4]] = m.violated
+        # the connection-oriented sink: whole frames per connection, the connection abandoned after a failed / partial write
+        r = bg.tlc("OutputStreamSink", "OutputStreamSink_quick.cfg" if quick else "OutputStreamSink_thorough.cfg", deadlock=False,
+                   timeout=900, workers=4, name="OutputStreamSink: a connection carries whole frames")
+        if not r.ok:
+            raise vlib.Infra("OutputStreamSink should hold: %s\n%s" % (r.violated, r.out[-2000:]))
+        m = bg.tlc("OutputStreamSink", "OutputStreamSink_quick.cfg", deadlock=False, timeout=600, workers=2,
+                   overrides={"M_ReconnectAfterFailedWrite": "FALSE"}, name="mutant M_ReconnectAfterFailedWrite off")
+        if m.ok or m.kind != "invariant":
+            raise vlib.Infra("spec mutant M_ReconnectAfterFailedWrite=FALSE is not rejected")
+        mutants["M_ReconnectAfterFailedWrite"] = m.violated
         return mutants
     side_f = pool.submit(side_runs)
 
@@ -428,6 +470,8 @@ def run(ctx):
     ]
     if "file" in bins:
         file_sink_concurrency(ctx, bins["file"], recs)
+    if "gelf" in bins:
+        gelf_stream(ctx, bins["gelf"], recs)
     ctx.classify(recs)
     import c19_pipeline
     c19_pipeline.stage(ctx)      # pipeline side: Batch.ForEach yields exactly the deliverable events (recycled event objects, split)
